@@ -1,5 +1,29 @@
-import SmtpV.Model.Client
+import SmtpV.Proofs.XtextRT
 import SmtpV.Spec.Codec
-/-! # C14 (theorems follow) -/
+/-!
+# C14 — envelope and options survive the client-to-server trip unchanged
+
+Proved: the xtext law on its whole domain.  The utf-8-addr-xtext / unitext laws and the end-to-end
+envelope law are judged on the implementation (rt probe: every Unicode scalar value) and tied by the
+correspondence of all five codec functions; their theorems are work in progress.
+-/
 namespace SmtpV.Props.C14
+open SmtpV SmtpV.Xtext
+
+/-- **xtext_roundtrip.**  `decodeXtext (encodeXtext s) = s` for every string over 0x00–0x7F — used for
+    ENVID, AUTH and rfc822 ORCPT values. -/
+theorem C14_xtext_roundtrip (s : Bytes) (h : ∀ b ∈ s, b.toNat < 128) : decodeXtext (encodeXtext s) = some s :=
+  xtext_roundtrip s h
+
+/-- the judge used on the implementation agrees: inside the domain the law is what is checked -/
+theorem C14_monitor_model (s : Bytes) (h : Spec.Codec.inDomainX s = true) :
+    Spec.Codec.check14 "x" s (decodeXtext (encodeXtext s)) = [] := by
+  have hs : ∀ b ∈ s, b.toNat < 128 := by
+    simpa [Spec.Codec.inDomainX] using h
+  simp [Spec.Codec.check14, h, xtext_roundtrip s hs]
+
+/-- non-vacuity: TAB, '+', '=', SP, DEL, NUL all survive -/
+example : decodeXtext (encodeXtext [9, 43, 61, 32, 127, 0, 65]) = some [9, 43, 61, 32, 127, 0, 65] := by decide +kernel
+example : encodeXtext [9, 43] = "+09+2B".b := by decide +kernel
+
 end SmtpV.Props.C14
